@@ -54,3 +54,18 @@ func Catch(f func()) (p *Panic) {
 	f()
 	return nil
 }
+
+var fatalRe = regexp.MustCompile(`(?m)^(panic: .*|fatal error: .*|unexpected signal.*)$`)
+
+// CrashKey derives a finding key from the stderr of a process that died: the top-most
+// gopcua frame of the crashing goroutine plus the class of the message.
+func CrashKey(stderr string) (key, msg string) {
+	loc := fatalRe.FindStringIndex(stderr)
+	msg = "process died"
+	tail := stderr
+	if loc != nil {
+		msg = stderr[loc[0]:loc[1]]
+		tail = stderr[loc[0]:]
+	}
+	return "crash:" + TopRepoFrame(tail) + ":" + MsgClass(msg), msg
+}
